@@ -29,6 +29,10 @@ type C19Plan struct {
 	Planted   []Planted `json:"planted,omitempty"`
 	ViaReconf bool      `json:"via_reconfigure,omitempty"`
 	ReuseSeq  bool      `json:"reuse_seq,omitempty"` // obtain the iterator once and use the same iter.Seq value for every consumer
+	// Inner > 0: while one traversal is suspended in its loop body, this many COMPLETE
+	// traversals of unrelated errors (every third one abandoned at once) run on the same
+	// goroutine: volume for whatever an iterator might recycle
+	Inner int `json:"inner,omitempty"`
 	// the concurrent-consumers world (conc19.go; only drawn and executed by the
 	// schedule-controlled build, ./check C19 stage 1)
 	Conc *C19Conc `json:"conc,omitempty"`
@@ -108,7 +112,7 @@ func (c19) FaultKinds() []string {
 	if concBuild {
 		return []string{"F3_preemption_fired", "F8_cancel_under_concurrency"}
 	}
-	return []string{"F8_cancel_range_break", "F8_cancel_callback_false", "F8_cancel_pull_stop", "F8_reentrant_range_over_same_iterator", "F8_consumer_unwinds_by_panic"}
+	return []string{"F8_cancel_range_break", "F8_cancel_callback_false", "F8_cancel_pull_stop", "F8_reentrant_range_over_same_iterator", "F8_consumer_unwinds_by_panic", "F8_many_traversals_inside_a_loop_body"}
 }
 func (c19) Probes() []string {
 	if concBuild {
@@ -176,7 +180,15 @@ func treeDepth(t TNode) int {
 	return d
 }
 
-func (c19) Gen(r *R, tier string) any {
+func (e c19) Gen(r *R, tier string) any {
+	p := e.gen(r, tier)
+	if q, ok := p.(*C19Plan); ok && q.Conc == nil && r.P(0.06) {
+		q.Inner = pick(r, []int{127, 128, 129, 255, 256, 257, 300, 1000})
+	}
+	return p
+}
+
+func (c19) gen(r *R, tier string) any {
 	allowHugeOriginLists = false
 	observeUnknownAPI = false
 	if concBuild {
@@ -380,7 +392,7 @@ func (c19) Exec(plan any, c *Ctx) *Violation {
 			i := 0
 			for e := range all() {
 				got = append(got, e)
-				clockTick("the next yield (a slow consumer)")
+				betweenSteps("the next yield (a slow consumer)")
 				if i == k {
 					break
 				}
@@ -491,6 +503,51 @@ func (c19) Exec(plan any, c *Ctx) *Violation {
 			}
 			if !sameErrs(inner, want) || !sameErrs(outer, want) {
 				return &Violation{Class: "wrong-leaves", Key: "reentrant", Detail: fmt.Sprintf("nested range over the same iterator value at outer position %d of %d: outer saw %v, inner saw %v, want %v both times", k, n, outer, inner, want)}
+			}
+		}
+	}
+	// volume: with the outer traversal suspended at position k, p.Inner traversals of
+	// unrelated errors run to completion (every third is abandoned after its first leaf)
+	if p.Inner > 0 && n >= 2 {
+		u1 := errors.Join(&leafErr{id: -11}, errors.Join(&leafErr{id: -12}, &leafErr{id: -13}))
+		wantU := flatten(u1)
+		for _, k := range dedupInts([]int{0, n / 2}) {
+			var outer []error
+			bad := ""
+			pan := catch(func() {
+				i := 0
+				for e := range all() {
+					outer = append(outer, e)
+					if i == k {
+						for j := 0; j < p.Inner && bad == ""; j++ {
+							var inner []error
+							for e2 := range cfgerrors.All(u1) {
+								inner = append(inner, e2)
+								if j%3 == 2 {
+									break
+								}
+							}
+							w := wantU
+							if j%3 == 2 {
+								w = wantU[:1]
+							}
+							if !sameErrs(inner, w) {
+								bad = fmt.Sprintf("inner traversal no. %d of an unrelated error saw %v, want %v", j+1, inner, w)
+							}
+						}
+					}
+					i++
+				}
+			})
+			c.hit("F8_many_traversals_inside_a_loop_body")
+			if pan != "" {
+				return &Violation{Class: "panic", Key: "volume", Detail: fmt.Sprintf("%d traversals inside the loop body at outer position %d of %d: %s", p.Inner, k, n, pan)}
+			}
+			if bad != "" {
+				return &Violation{Class: "wrong-leaves", Key: "volume", Detail: fmt.Sprintf("outer traversal suspended at position %d of %d: %s", k, n, bad)}
+			}
+			if !sameErrs(outer, want) {
+				return &Violation{Class: "wrong-leaves", Key: "volume", Detail: fmt.Sprintf("after %d traversals of unrelated errors ran inside its loop body at position %d, the outer traversal saw %d errors %v, want %d %v", p.Inner, k, len(outer), outer, n, want)}
 			}
 		}
 	}
@@ -627,6 +684,11 @@ func (c19) Shrink(plan any) []any {
 		return shrinkC19Conc(p)
 	}
 	var out []any
+	if p.Inner > 0 {
+		q := *p
+		q.Inner = 0
+		out = append(out, &q)
+	}
 	if p.Tree == nil {
 		for i := range p.Planted {
 			q := *p
@@ -645,7 +707,7 @@ func (c19) Shrink(plan any) []any {
 	}
 	for _, t := range shrinkTree(*p.Tree) {
 		t := t
-		out = append(out, &C19Plan{Tree: &t})
+		out = append(out, &C19Plan{Tree: &t, Inner: p.Inner, ReuseSeq: p.ReuseSeq})
 	}
 	return out
 }
